@@ -227,6 +227,10 @@ func (mgr *GCMgr) gc(bkt *Bucket, startChunkID, endChunkID int, merge bool) {
 	var rec *Record
 	var r *DataStreamReader
 
+	// records still buffered for a file of the range (a just rotated file is flushed by a
+	// goroutine that may not have run yet) must be on disk before that file is collected
+	bkt.datas.flushBuffered()
+
 	mgr.BeforeBucket(bkt, startChunkID, endChunkID, merge)
 	defer mgr.AfterBucket(bkt)
 	if utils.VerifOn {
